@@ -8,6 +8,8 @@
    destination paths. *)
 From XcpModel Require Import Base Backup Paths Walker.
 From XcpProofs Require Import WalkerProofs.
+From XcpModel Require Import Extracted.
+From XcpProofs Require Import ExtractedOk.
 
 (* cp's mapping rule: every entry maps to target_base ++ its relative path;
    distinct entries map to distinct targets; a child maps below its parent *)
@@ -64,9 +66,17 @@ Example C02_nonvacuous :
   apply_walk (fun _ => None) (fst r) [[98]; [99]] = Some (DLink [120]).
 Proof. vm_compute. repeat split. Qed.
 
+(* ---- tie to the current source (translator): the walker's per-entry dispatch table ---- *)
+Theorem C02_src_walker_dispatch :
+  Forall (fun p => map wact_code (fst (act_of (mkW false false) (fun _ => false) ([], kind_of_ft (fst p), false))) = snd p)
+         x_walker_dispatch /\
+  map fst x_walker_dispatch = [0; 1; 2; 3; 4; 5; 6; 7]%N.
+Proof. exact x_walker_dispatch_ok. Qed.
+
 Print Assumptions C02_target_injective.
 Print Assumptions C02_child_below_parent.
 Print Assumptions C02_target_base_rule.
 Print Assumptions C02_entries_distinct.
 Print Assumptions C02_mirror_on_success.
 Print Assumptions C02_sizes_sum.
+Print Assumptions C02_src_walker_dispatch.
